@@ -218,6 +218,78 @@ def r2_slices(repo: Repo, rep):
                   f"{have}" + ("" if lead_ok else " (batch axes not addressed by `...`)"), f"{label}: {have}")
 
 
+def _compute_slice_cases(cs):
+    """partial evaluation of Points._compute_slice on a three-variable space (x:2, t:1, u:3) for name, name-list and Ellipsis keys:
+    returns [(label, ok)] or None when a case is not evaluable.  The model of Space[[names]] (the names in the requested order) is what R-C12-6 establishes."""
+    from collections import OrderedDict
+    from ..absdom.listeval import Evaluator, Obj, Opaque, UNKNOWN
+
+    class SpaceM(OrderedDict):
+        def __getitem__(self, k):
+            if isinstance(k, (list, tuple)):
+                return SpaceM((x, OrderedDict.__getitem__(self, x)) for x in k)
+            if isinstance(k, slice):
+                keys = list(self.keys())
+                sel = keys[slice(keys.index(k.start) if k.start is not None else None, keys.index(k.stop) if k.stop is not None else None, k.step)]
+                return SpaceM((x, OrderedDict.__getitem__(self, x)) for x in sel)
+            return OrderedDict.__getitem__(self, k)
+    dims = [("x", 2), ("t", 1), ("u", 3)]
+    slc, at = {}, 0
+    for k, d in dims:
+        slc[k] = slice(at, at + d)
+        at += d
+
+    def on_call(e, name, args, kws, ev, f):
+        if name == "Space" and args and isinstance(args[0], dict):
+            return SpaceM(args[0])
+        return None
+
+    def resolve(e, ev, f):
+        if isinstance(e, ast.Subscript):
+            b = ev.ev(e.value, f)
+            if isinstance(b, SpaceM):
+                k = ev.ev(e.slice, f)
+                if isinstance(k, (list, tuple)) and all(isinstance(x, str) and x in b for x in k):
+                    return b[k]
+                if isinstance(k, slice) and all(x is None or x in b for x in (k.start, k.stop)) and (k.step is None or isinstance(k.step, int) and k.step != 0):
+                    return b[k]
+        return None
+    full = slice(None)
+    cases = [(2, (full, ["u", "x"])), (2, (full, "u")), (2, (Ellipsis, ("t", "x"))), (2, [full, ["t"]]), (3, (full, full, ["x", "u", "t"])), (3, (Ellipsis, "x")),
+             (3, (Ellipsis, ["u", "t"])), (2, (full, ["x", "t", "u"])), (2, (slice(0, 3), ("u",))),
+             (2, (full, slice("t", None))), (2, (full, slice(None, "u"))), (2, (full, slice(None, None, -1))), (2, (full, slice(None, None, 2))), (3, (Ellipsis, slice("u", "x", -1))),
+             (2, [0, 2, 3]), (2, [True, False, True, False, False, False, True]), (3, [1, 0, 3, 2])]
+    out = []
+    for rank, key in cases:
+        shape = tuple(range(7, 7 + rank - 1)) + (6,)
+        T = Obj("self._t", {"shape": shape, "ndim": rank})
+        key0 = [list(k) if isinstance(k, list) else k for k in key] if isinstance(key, list) else key
+        try:
+            fr = Evaluator(resolve, on_call).run(cs.node.body, {"self": Opaque("self"), cs.params[1]: key0},
+                                                 attrs={"self._t": T, "self._t.shape": shape, "self._t.ndim": rank, "self.space": SpaceM(dims), "self._variable_slices": dict(slc), "self.dim": 6})
+        except Exception:
+            return None
+        got = fr.ret
+        if not (isinstance(got, tuple) and len(got) == 2 and isinstance(got[0], (list, tuple)) and isinstance(got[1], dict)):
+            return None
+        if isinstance(key, list) and all(isinstance(x, (int, bool)) for x in key):
+            # a list of row numbers / a list mask on the first batch axis: handed on as the same LIST (a tuple would address several axes), whole space kept
+            ok = isinstance(got[0], list) and list(got[0]) == list(key) and list(got[1].items()) == dims
+            out.append((f"rank {rank}, row pick {key!r}: the same list under the whole space", ok, f"index {got[0]!r} ({type(got[0]).__name__}), space {list(got[1].items())}"))
+            continue
+        names = key[-1]
+        names = [names] if isinstance(names, str) else list(SpaceM(dims)[names].keys()) if isinstance(names, slice) else list(names)
+        want_cols = [c for n in names for c in range(slc[n].start, slc[n].stop)]
+        idx = list(got[0])
+        last = idx[-1] if idx else None
+        if isinstance(last, slice):
+            last = list(range(6))[last]
+        ok = len(idx) == len(key) and list(idx[:-1]) == list(key[:-1]) and isinstance(last, list) and last == want_cols \
+            and list(got[1].keys()) == names and all(got[1][n] == dict(dims)[n] for n in names)
+        out.append((f"rank {rank}, key {key!r}: columns {want_cols} under space {names}", ok, f"index {got[0]!r}, space {list(got[1].items())}"))
+    return out
+
+
 def r3_selection(repo: Repo, rep, rule_id="R-C12-3"):
     R = rep.rule(rule_id, "name-based selection: index and space come from ONE _compute_slice evaluation, whose column list is built by "
                  "iterating the returned sub-space (requested order)", floor=4,
@@ -229,6 +301,9 @@ def r3_selection(repo: Repo, rep, rule_id="R-C12-3"):
         raise AnalysisError("Points._compute_slice vanished")
     rep.saw(cs)
     seen_list = seen_str = 0
+    evaluated = _compute_slice_cases(cs)
+    for label, ok, found in evaluated or []:
+        rep.check(R, ok, cs.site(), cs.fq, label, found, label.split(":")[0])
     for p in _ret_paths(cs):
         r = p.ret
         if not (isinstance(r, ast.Tuple) and len(r.elts) == 2):
@@ -247,10 +322,14 @@ def r3_selection(repo: Repo, rep, rule_id="R-C12-3"):
         if isinstance(sp, ast.Call) and attr_chain(sp.func) == "Space":
             # string case: Space({name: self.space[name]}) and slices[name]
             seen_str += 1
+            if evaluated:
+                continue  # decided by evaluation above
             good = dump(st.value).startswith("self._variable_slices[") and dump(st.value).endswith("[-1]]")
             rep.check(R, good, cs.site(st.node), cs.fq, "single variable: index = _variable_slices[name], space = Space({name: dim})", dump(st.value), dump(st.value))
             continue
         seen_list += 1
+        if evaluated:
+            continue  # decided by evaluation above
         # list case: out_space = self.space[val[-1]]; idx iterates out_space
         it_ok = False
         lvs = [(k, it) for k, it in p.loopvars.items()]
@@ -518,7 +597,27 @@ def r6_empty_and_slices(repo: Repo, rep):
         rep.check(R, ok, gi.site(), gi.fq, f"{label} of (a, b, c, d) == {want}", f"{list(got.keys())}", f"{label}: {list(got.keys())}")
 
 
+def r7_value_semantics(repo: Repo, rep):
+    R = rep.rule("R-C12-7", "Space and Points define no in-place operator (__imul__, __ior__, __iadd__ ...) that changes the receiver: `S *= T` builds a new object", floor=2,
+                 why="a space object is shared by every Points, domain and model built with it: updating it in place silently turns all of them into the product space")
+    for cname, fqn in (("Space", SPC), ("Points", PTS)):
+        ci = repo.cls(fqn)
+        bad = []
+        for name, fi in ci.methods.items():
+            if not (name.startswith("__i") and name.endswith("__") and name not in ("__init__", "__iter__", "__init_subclass__", "__instancecheck__", "__int__", "__index__", "__invert__")):
+                continue
+            rep.saw(fi)
+            returns_self = any(isinstance(r, ast.Return) and isinstance(r.value, ast.Name) and r.value.id == "self" for r in ast.walk(fi.node))
+            mutates = any(isinstance(c, ast.Call) and isinstance(c.func, ast.Attribute) and dump(c.func.value) == "self" and c.func.attr in ("update", "__setitem__", "pop", "clear", "setdefault", "subtract")
+                          for c in ast.walk(fi.node)) or any(isinstance(t, (ast.Subscript, ast.Attribute)) and dump(t).startswith("self") for a in ast.walk(fi.node) if isinstance(a, (ast.Assign, ast.AugAssign))
+                                                            for t in (a.targets if isinstance(a, ast.Assign) else [a.target]))
+            if returns_self or mutates:
+                bad.append(name)
+        rep.check(R, not bad, ci.module.relpath, ci.fq, "no receiver-changing in-place operator", f"defines {bad}", f"{cname}: {bad}")
+
+
 def run(repo: Repo, rep):
+    r7_value_semantics(repo, rep)
     r6_empty_and_slices(repo, rep)
     r1_pairing(repo, rep)
     r2_slices(repo, rep)
